@@ -1523,8 +1523,11 @@ class ModuleScope(VhdlScope):
         if additional_reserved_names is None:
             additional_reserved_names = set()
 
+        # names are compared case insensitive, used_names contains lower case names
         self._used_names = (
-            self._vhdl_reserved | self._additional_reserved | additional_reserved_names
+            self._vhdl_reserved
+            | self._additional_reserved
+            | {name.lower() for name in additional_reserved_names}
         )
 
 
